@@ -50,7 +50,7 @@ import render  # noqa: E402
 import values  # noqa: E402
 
 CALL_TIMEOUT = int(os.environ.get('VERIF_CALL_TIMEOUT', '3'))
-SLOW_OP = 0.25           # operations slower than this alone are left out of the tables
+SLOW_OP = 0.25           # operations needing more CPU seconds than this alone are left out of the tables
 TEXT_CODECS = ('jer', 'xer', 'gser')
 ALL_CODECS = ['ber', 'der', 'per', 'uper', 'oer', 'jer', 'xer', 'gser']
 SENTINEL = '#c18-sentinel#'
@@ -285,9 +285,9 @@ def _alarm(signum, frame):
 
 def perform(spec, op, arg, use_alarm):
     """One public call; returns (canonical result string, raw result or None)."""
-    if use_alarm:
-        signal.signal(signal.SIGALRM, _alarm)
-        signal.alarm(CALL_TIMEOUT)
+    if use_alarm:        # CPU-time budget (not wall clock: a loaded machine must not look like a hang)
+        signal.signal(signal.SIGVTALRM, _alarm)
+        signal.setitimer(signal.ITIMER_VIRTUAL, CALL_TIMEOUT)
     try:
         if op['kind'] == 'encode':
             r = spec.encode(op['type'], arg, check_types=op['ct'], check_constraints=op['cc'])
@@ -306,7 +306,7 @@ def perform(spec, op, arg, use_alarm):
         return canon_exc(e), None
     finally:
         if use_alarm:
-            signal.alarm(0)
+            signal.setitimer(signal.ITIMER_VIRTUAL, 0)
 
 
 def op_arg(op):
@@ -443,9 +443,9 @@ def build_table(mod, codec, max_ops):
 
     def measure(op):
         spec = fresh_compile(text, codec)
-        t0 = time.time()
+        t0 = time.process_time()
         r, raw = perform(spec, op, op_arg(op), True)
-        dt = time.time() - t0
+        dt = time.process_time() - t0
         if r == 'timeout' or r.startswith('exc:builtins.MemoryError') or r.startswith('exc:builtins.RecursionError'):
             stats['dropped_timeout'] += 1
             return None, None
@@ -469,7 +469,7 @@ def build_table(mod, codec, max_ops):
             continue
         op['solo'] = r
         table.append(op)
-        if op['cls'] == 'valid' and r.startswith('ok:') and codec != 'gser':
+        if op['kind'] == 'encode' and op['cls'] == 'valid' and r.startswith('ok:') and codec != 'gser':
             data = bytes(raw)
             if (op['type'], data) not in seen_data:
                 seen_data.add((op['type'], data))
